@@ -24,6 +24,9 @@ func init() {
 	register(&Rule{Name: "NUM.FRACBOUND", Props: []string{"C15"}, Floor: 1,
 		Doc: "a counted number of fraction digits stops at the maximum (18): the counter that ends up in Number.FractionDigits is incremented only below it",
 		Run: ruleNumFracBound})
+	register(&Rule{Name: "NUM.FLOATCLAMP", Props: []string{"C15"}, Floor: 2,
+		Doc: "the float conversion clamps a float that equals the (rounded) decimal64 bound, not only those beyond it",
+		Run: ruleNumFloatClamp})
 	register(&Rule{Name: "RPC.PART", Props: []string{"C17", "C12", "C07"}, Floor: 2,
 		Doc: "every statement kind that can carry input/output (rpc, action) is converted to an entry with an RPC part, present even when neither is written",
 		Run: ruleRPCPart})
@@ -215,6 +218,51 @@ func ruleNumFracBound(c *Ctx) []Obligation {
 			}
 		}
 	}
+	return obs
+}
+
+// floatClampInclusive: FromFloat's clamp tests include the bound itself. The float64 nearest to ±922337203685477580.7/8
+// lies outside the decimal64 domain, so a float equal to it must be clamped too: scaled by ten it is 2^63.
+func ruleNumFloatClamp(c *Ctx) []Obligation {
+	const R = "NUM.FLOATCLAMP"
+	fn := c.Fn("yang.FromFloat")
+	if fn == nil || len(fn.Params) != 1 {
+		return []Obligation{undecided(R, "float conversion", "-", "FromFloat not found")}
+	}
+	var obs []Obligation
+	eachInstr(fn, func(in ssa.Instruction) {
+		bo, okb := in.(*ssa.BinOp)
+		if !okb || bo.X != ssa.Value(fn.Params[0]) {
+			return
+		}
+		k, okk := bo.Y.(*ssa.Const)
+		if !okk || k.Value == nil {
+			return
+		}
+		bt, okt := k.Type().Underlying().(*types.Basic)
+		if !okt || bt.Info()&types.IsFloat == 0 {
+			return
+		}
+		// only the tests that lead to a clamped return: a successor returns without further computation on f
+		var which string
+		switch bo.Op {
+		case token.GTR, token.GEQ:
+			which = "upper"
+		case token.LSS, token.LEQ:
+			which = "lower"
+		default:
+			return
+		}
+		if kf := k.Float64(); kf > -1e17 && kf < 1e17 {
+			return // the sign test
+		}
+		con := "FromFloat: a float equal to the " + which + " bound is clamped"
+		if bo.Op == token.GEQ || bo.Op == token.LEQ {
+			obs = append(obs, ok(R, con, c.InstrPos(bo), "the clamp test is "+bo.Op.String()))
+		} else {
+			obs = append(obs, bad(R, con, c.InstrPos(bo), "the clamp test is strict ("+bo.Op.String()+"): the float64 nearest to the bound lies outside the decimal64 domain, and a float equal to it is scaled to a mantissa of 2^63 — a Number whose printed form ParseDecimal refuses"))
+		}
+	})
 	return obs
 }
 
@@ -691,4 +739,114 @@ func operandClosure(v ssa.Value, visit func(ssa.Value)) {
 		}
 	}
 	walk(v)
+}
+
+// ---------------------------------------------------------------- LINK.PERRUN
+
+func init() {
+	register(&Rule{Name: "LINK.PERRUN", Props: []string{"C18", "C05"}, Floor: 2,
+		Doc: "the import and include links are state of one run: before every linking pass they are cleared on every module and submodule of the set, linked this time or not",
+		Run: ruleLinkPerRun})
+}
+
+func ruleLinkPerRun(c *Ctx) []Obligation {
+	const R = "LINK.PERRUN"
+	inc := c.Fn("yang.(*Modules).include")
+	proc := c.Fn("yang.(*Modules).Process")
+	if inc == nil || proc == nil {
+		return []Obligation{undecided(R, "linker", "-", "(*Modules).include / Process not found")}
+	}
+	var site ssa.CallInstruction
+	var host *ssa.Function
+	reach := c.Reach([]*ssa.Function{proc}, nil)
+	inside := c.Reach([]*ssa.Function{inc}, nil)
+	for _, fn := range c.Funcs {
+		if !reach[fn] || fn == inc || inside[fn] || fn.Blocks == nil {
+			continue
+		}
+		for _, ci := range c.callsTo(fn, inc) {
+			site, host = ci, fn
+		}
+	}
+	if site == nil {
+		return []Obligation{undecided(R, "linker", c.Pos(proc.Pos()), "no call of include under Process")}
+	}
+	// the retry loop, if linking is repeated (LINK.FIXPOINT decides that it is)
+	inner := loopHeaderOf(site.Block())
+	var outer *ssa.BasicBlock
+	if inner != nil {
+		for h := inner.Idom(); h != nil && outer == nil; h = h.Idom() {
+			for _, p := range h.Preds {
+				if h.Dominates(p) && blockReaches(inner, p, map[*ssa.BasicBlock]bool{h: true}) {
+					outer = h
+				}
+			}
+		}
+	}
+	mods := c.MustNamed("yang", "Modules")
+	var obs []Obligation
+	for _, tn := range []string{"Import", "Include"} {
+		t := c.MustNamed("yang", tn)
+		fLink := FieldVar(t, "Module")
+		con := fmt.Sprintf("%s.Module is cleared on every module and submodule before each linking pass", tn)
+		if fLink == nil {
+			obs = append(obs, undecided(R, con, "-", tn+" has no Module field"))
+			continue
+		}
+		spaces := map[string]bool{}
+		var at ssa.Instruction
+		for _, st := range c.storesToFieldDeep(host, fLink) {
+			if !isNilConst(st.Val) {
+				continue
+			}
+			fn := st.Parent()
+			eachInstr(fn, func(in ssa.Instruction) {
+				r, isR := in.(*ssa.Range)
+				if !isR || !r.Block().Dominates(st.Block()) {
+					return
+				}
+				if fn == host {
+					// the sweep comes before the pass, inside the retry loop
+					before := false
+					for _, h := range fn.Blocks {
+						if isLoopHeader(h) && h != outer && h != inner && h.Dominates(r.Block()) && h.Dominates(site.Block()) && (outer == nil || outer.Dominates(h)) {
+							before = true
+						}
+					}
+					if !before {
+						return
+					}
+				} else if h := c.helpers[fn]; h == nil || len(h.sites) != 1 || !dominates(h.site.(ssa.Instruction), site.(ssa.Instruction)) || outer != nil && !outer.Dominates(h.site.Block()) {
+					return
+				}
+				operandClosure(r.X, func(x ssa.Value) {
+					if owner, f, _ := loadedField(x); owner == mods && f != nil {
+						if _, isMap := f.Type().Underlying().(*types.Map); isMap {
+							spaces[f.Name()] = true
+							at = st
+						}
+					}
+					for _, e := range literalListElems(x) {
+						if owner, f, _ := loadedField(e); owner == mods && f != nil {
+							spaces[f.Name()] = true
+							at = st
+						}
+					}
+				})
+			})
+		}
+		switch {
+		case spaces["Modules"] && spaces["SubModules"]:
+			obs = append(obs, ok(R, con, c.InstrPos(at), "x.Module = nil in a sweep over Modules and SubModules that precedes the pass"))
+		case len(spaces) > 0:
+			var ns []string
+			for s := range spaces {
+				ns = append(ns, s)
+			}
+			obs = append(obs, bad(R, con, c.InstrPos(at), "the links are cleared only in "+strings.Join(ns, ", ")+": a loaded submodule revision that is no longer included (or a module, respectively) keeps the links of an earlier run, so loading in two steps resolves names that loading at once reports as unknown"))
+		default:
+			obs = append(obs, bad(R, con, c.InstrPos(site.(ssa.Instruction)), "the links are only ever set: a statement that this run does not link (its submodule revision is no longer included, or linking failed before it was reached) keeps the link of an earlier run, so loading in two steps resolves names that loading at once reports as unknown"))
+		}
+	}
+	return obs
 }
